@@ -151,6 +151,12 @@ InoInvs(ev) ==
 MZ2x20(p) == Mul(Add(Mul(N(5), Sq(p["g2"])), Mul(N(3), Sq(p["g1"]))), Add(Sq(p["vd"]), Sq(p["vu"])))
 MW2x4(p)  == Mul(Sq(p["g2"]), Add(Sq(p["vd"]), Sq(p["vu"])))
 
+GoldDir(mix, zn, p) ==
+  LET a(i, k) == Abs(mix[zn \o "_" \o i \o k])
+      v == Add(Abs(p["vu"]), Abs(p["vd"]))
+  IN /\ Within(Mul(a("0", "0"), Abs(p["vu"])), Mul(a("0", "1"), Abs(p["vd"])), v)
+     /\ Within(Mul(a("1", "0"), Abs(p["vd"])), Mul(a("1", "1"), Abs(p["vu"])), v)
+
 HiggsInvs(ev) ==
   LET p == ev.par  ms == ev.mass
       T == {ev.tach[i] : i \in DOMAIN ev.tach}
@@ -168,6 +174,10 @@ HiggsInvs(ev) ==
         I("Higgs:mHpm2=mA2+mW2", quiet => Rel(Sq(mHp), Add(Sq(mA), Sq(mw)))),
         I("Higgs:mh2+mH2=mA2+mZ2", quiet => Rel(Add(Sq(ms["Mhh_00"]), Sq(ms["Mhh_10"])), Add(Sq(mA), Sq(mz)))),
         I("Higgs:Orthogonal", Orth2(ev.mix, "ZH") /\ Orth2(ev.mix, "ZA") /\ Orth2(ev.mix, "ZP")),
+        \* gauge invariance fixes the Goldstone directions: G^0, G^+- along (v_d, -v_u) up to a sign, the physical A, H^+-
+        \* along (v_u, v_d); stated on magnitudes (independent of the sign conventions of the mixing matrices)
+        I("Higgs:GoldstoneDirectionA", quiet => GoldDir(ev.mix, "ZA", p)),
+        I("Higgs:GoldstoneDirectionP", quiet => GoldDir(ev.mix, "ZP", p)),
         I("Higgs:Ordered", Le(ms["Mhh_00"], ms["Mhh_10"]) /\ Sgn(ms["Mhh_00"]) >= 0),
         I("Higgs:AhTachyonIffNegative", ("Ah" \in T) <=> Sgn(p["BMu"]) < 0),
         I("Higgs:HpmTachyonIffNegative", ("Hpm" \in T) <=> Sgn(Add(Mul(N(4), mA2vv), Mul(MW2x4(p), vv))) < 0),
